@@ -33,10 +33,14 @@ pub open spec fn half_units(b: int, lsig: int, lexp: int, eu: int, k: int) -> bo
 /// f is a power of the base (normalized significand: +-1)
 pub open spec fn eb_pow(sig: int) -> bool { iabs(sig) == 1 }
 
+/// refinement factor of the grid below f: the base for a power of the base, 1 otherwise (a function, not an if/else:
+/// it occurs inside a trigger)
+pub open spec fn eb_g(b: int, sig: int) -> int { if eb_pow(sig) { b } else { 1 } }
+
 /// the postcondition of error_bounds for a limited-precision float (see MODEL)
 pub open spec fn eb_post(md: Mode, b: int, sig: int, exp: int, p: int, lsig: int, lexp: int, rsig: int, rexp: int, il: bool, ir: bool) -> bool {
     let d = ndigits(b, sig) as int;
-    let g = if eb_pow(sig) { b } else { 1 };
+    let g = eb_g(b, sig);
     let eu = exp + d - p - (if eb_pow(sig) { 1int } else { 0int });       // exponent of the fine step ulp/g
     let m = sig * ipow(b, (p - d) as nat);
     exists|l2: int, r2: int| 0 <= l2 <= 2 * g && 0 <= r2 <= 2 * g && half_units(b, lsig, lexp, eu, l2) && half_units(b, rsig, rexp, eu, r2)
@@ -159,5 +163,20 @@ pub proof fn lemma_grid_parity(b: int, sig: int, k: nat)
         let t = h * (sig * q);
         assert(sig * (b * q) == t * 2) by (nonlinear_arith) requires b == 2 * h, t == h * (sig * q);
         vstd::arithmetic::div_mod::lemma_mod_multiples_basic(t, 2);
+    }
+}
+
+/// parity on the fine grid: m * g for the refinement factor g (the even base, or 1)
+pub proof fn lemma_fine_parity(b: int, m: int, pw: bool)
+    requires b >= 2, b % 2 == 0
+    ensures (m * (if pw { b } else { 1 })) % 2 == (if pw { 0 } else { m % 2 })
+{
+    if pw {
+        let h = b / 2;
+        let t = m * h;
+        assert(m * b == t * 2) by (nonlinear_arith) requires b == 2 * h, t == m * h;
+        vstd::arithmetic::div_mod::lemma_mod_multiples_basic(t, 2);
+    } else {
+        assert(m * 1 == m);
     }
 }
